@@ -139,6 +139,8 @@ class Renderer:
         args = list(d.get("args", []))
         call = "V.cap(%d%s)" % (sid, (", " + _kw(args)) if args else "")
         flavor = d.get("flavor", "sync")
+        dargs = set(d.get("dargs", [])) if flavor == "sync" else set()  # capture parameters with a default of their own
+        args = [a for a in args if a not in dargs] + ["%s=V.NOARG" % a for a in args if a in dargs]
         if d.get("lam", True) and flavor == "sync":
             return "lambda %s: %s" % (", ".join(args), call)
         name = "s%d" % sid
